@@ -1,7 +1,7 @@
 #!/bin/bash
-# tools/seed_verify.sh <Cxx> <a|b>  : confirm a sub-agent's seeded change in a scratch worktree of /repo HEAD:
+# tools/seed_verify.sh <Cxx> <a|b|c|d>  (SEEDROOT=/tmp/seed2 for round 2)  : confirm a sub-agent's seeded change in a scratch worktree of /repo HEAD:
 #   clean tree -> demo PASS, patched -> demo FAIL, patched -> 161 baseline pass. On success copy to seeded/<Cxx>-<v>/
-P=$1; V=$2; SRC=/tmp/seed/$P/$V; WT=/tmp/wtv-$P-$V
+P=$1; V=$2; SRC=${SEEDROOT:-/tmp/seed}/$P/$V; WT=/tmp/wtv-$P-$V
 [ -f $SRC/patch.diff ] || { echo "no patch"; exit 2; }
 git -C /repo worktree add -f --detach $WT HEAD >/dev/null 2>&1 || exit 2
 cd $WT
